@@ -105,7 +105,7 @@ def run(tier):
         if (dow, dom) != want:
             v.violation("c18:on-string-misparsed", "ON string parsed into the wrong (weekday, day)", {"on": on, "got": [dow, dom], "want": list(want)})
     # ---- cases
-    years = range(1873, 2127)
+    years = range(1873, 2128)      # every year LocalDate represents (the compiler admits 1872..2127 as concrete rule years)
     cases = []
     for on, month, dow, dom in admitted:
         for y in years:
@@ -218,7 +218,7 @@ def run(tier):
         "distinct_nontrivial": len(distinct),
         "rule": "admission is decided by executing the real Transformer._create_rules_with_on_day_expansion on one synthetic policy per "
                 "(ON string, month) for every string of the grammar n | lastDow | Dow>=n | Dow<=n (n=1..31) and 9 malformed strings that have no reading in the grammar; "
-                "every admitted (month, weekday, day) x every year 1873..2126 is resolved by the C++ calcStartDayOfMonth (ASan+UBSan) "
+                "every admitted (month, weekday, day) x every year 1873..2127 is resolved by the C++ calcStartDayOfMonth (ASan+UBSan) "
                 "and the Python calc_day_of_month and compared with a datetime-based calendar oracle (expressions naming a day the "
                 "month does not have are outside zic's input language and skipped: %d). distinct = distinct (month, weekday, day) "
                 "expressions. For the years 2000..2049 every case is also built as an in-memory one-era zone (switch to +1:00 on the expression at 12:00, "
